@@ -835,6 +835,8 @@ def run(facts, chk, tier, only=None):
     from . import cli_e2e
     # the subcommand through ska::main() itself (argument parser replaced by a constructed Args value): hand-over of CLI values, width dispatch
     chk.guard('C04.cli', 'C04.cli:run0', lambda: cli_e2e.check_map(facts, chk, 'C04.cli', tier, 'Aln'))
+    from . import cli_more
+    chk.guard('C04.cli', 'C04.cli:run1', lambda: cli_more.check_seq_inputs(facts, chk, 'C04.cli', tier, 'map'))
     chk.guard('C04.writer', 'C04.writer:run', lambda: check_writer(facts, chk, tier))
     chk.guard('C04.map', 'C04.map:run', lambda: check_pseudoalignment(facts, chk, 'C04.map', tier))
     chk.guard('C04.map', 'C04.map:run2', lambda: check_map(facts, chk, 'C04.map', tier))
